@@ -234,6 +234,16 @@ def _send_rst(sim, sock):
         sim.add_timer(when, arrive)
 
 
+def _eof_streak(sim, t):
+    # a thread that keeps reading an ended stream makes no progress: classify as spin, not as step-cap
+    t.eof_streak = getattr(t, 'eof_streak', 0) + 1
+    if t.eof_streak > 2000:
+        import sys
+        from .core import _fmt_stack
+        sim._finish('spin', {'thread': t.name, 'role': t.role, 'why': 'reads an ended stream over and over',
+                             'stack': _fmt_stack(sys._getframe(2), short=True)})
+
+
 # ------------------------------------------------------------------------------ stream I/O
 def k_read(sim, sock, n, timeout=None, what='read'):
     t = sim.me()
@@ -252,9 +262,11 @@ def k_read(sim, sock, n, timeout=None, what='read'):
             rx.read += k
             sim.wake_q(rx.wq)
             sim.ev('read', t.name, sock.label, k)
+            t.eof_streak = 0
             return data
         if tcp and sock.fin_rcvd:
             sim.ev('read-eof', t.name, sock.label)
+            _eof_streak(sim, t)
             return b''
         if sock.err is not None:
             e = sock.err
@@ -263,6 +275,7 @@ def k_read(sim, sock, n, timeout=None, what='read'):
             raise _oserr(e)
         if sock.fin_rcvd or sock.dead or sock.shut_rd:
             sim.ev('read-eof', t.name, sock.label)
+            _eof_streak(sim, t)
             return b''
         if timeout is not None and timeout <= 0:
             raise BlockingIOError(errno.EAGAIN, 'Resource temporarily unavailable')
